@@ -202,9 +202,11 @@ func resolveModule(m *object.Module, attr []string) (*object.Module, bool) {
 	if len(attr) == 0 {
 		return m, true
 	}
-	var result *object.Module
+	// Descend one module per path component: each name is looked up in the
+	// module found by the previous one
+	result := m
 	for _, name := range attr {
-		if obj, ok := m.GetAttr(name); ok {
+		if obj, ok := result.GetAttr(name); ok {
 			if modObj, ok := obj.(*object.Module); ok {
 				result = modObj
 				continue
